@@ -477,18 +477,19 @@ class Verifier:
             raise EngineError("break/continue outside loop")
         kind, val = outcome
         res.exits[kind] += 1
-        if eng.solver.check() != z3.unsat:
-            res.feasible_exits += 1
-        else:
+        if eng.solver.check() == z3.unsat:
             return
-        if res.canaries < 3:
-            # must-fail canary: `False` must not be provable from the full path condition
-            res.canaries += 1
-            cs = z3.Solver()
-            cs.set("timeout", 1500)
-            cs.add(eng.pc)
-            if cs.check() == z3.unsat:
-                res.canary_proved += 1
+        # the branch conditions were decided on the quantifier-free part only; an exit whose full
+        # path condition is inconsistent is an infeasible path (and if every exit is, the contract's
+        # assumptions are inconsistent: vacuity guard)
+        res.canaries += 1
+        cs = z3.Solver()
+        cs.set("timeout", 1500)
+        cs.add(eng.pc)
+        if cs.check() == z3.unsat:
+            res.infeasible_full = getattr(res, "infeasible_full", 0) + 1
+            return
+        res.feasible_exits += 1
         env = dict(eng.entry_env)
         if frame.parent is not None:
             for name in con.free:
